@@ -260,3 +260,50 @@ def reachable(code, **kw):
     for p in paths:
         r.update(p.executed)
     return r, paths, complete
+
+
+def static_reachable(code):
+    """Over-approximation of the offsets reachable in the EVM control-flow graph, for programs with loops: a JUMP /
+    JUMPI whose target is pushed by the immediately preceding PUSH goes to that target (if it is a JUMPDEST);
+    any other JUMP / JUMPI may go to every JUMPDEST. Returns the set of byte offsets (instructions + push data)."""
+    kinds, starts, jumpdests = evm.instruction_starts(code)
+    n = len(code)
+    prev_push = {}
+    last = None
+    for s in starts:
+        if last is not None and kinds[last] == "P":
+            prev_push[s] = int.from_bytes(code[last + 1:last + 1 + (code[last] - 0x5f)], "big")
+        elif last is not None and code[last] == 0x5f and kinds[last] == "O":
+            prev_push[s] = 0
+        last = s
+    seen = set()
+    work = [0]
+    while work:
+        pc = work.pop()
+        while pc < n and pc not in seen:
+            seen.add(pc)
+            k = kinds[pc]
+            b = code[pc]
+            if k == "P":
+                w = b - 0x5f
+                seen.update(range(pc + 1, pc + 1 + w))
+                pc += 1 + w
+                continue
+            if k in ("I", "T") or b not in evm.OPS:
+                break
+            name = evm.OPS[b][0]
+            if name in ("JUMP", "JUMPI"):
+                if pc in prev_push:
+                    t = prev_push[pc]
+                    targets = [t] if t in jumpdests else []
+                else:
+                    targets = sorted(jumpdests)
+                for t in targets:
+                    if t not in seen:
+                        work.append(t)
+                if name == "JUMP":
+                    break
+            elif name in ("STOP", "RETURN", "REVERT", "SELFDESTRUCT", "INVALID"):
+                break
+            pc += 1
+    return seen
